@@ -414,7 +414,7 @@ def check_vs(ck, F, rule="R10.3"):
     ck.require(isinstance(val, Tup) and len(val.items) == 3 and vec_eq(val.items[0], want_sq, why), rule, "u_sq", f"first component must be [u_j^2]; {why}", where)
     why = []
     ck.require(isinstance(val, Tup) and len(val.items) == 3 and vec_eq(val.items[1], want_inv, why), rule, "u_inv_sq", f"second component must be [u_j^-2]; {why}", where)
-    recs = [r for r in I.recurrences if FX.same_fn(r["fn"], P_VS)]
+    recs = list(I.recurrences)  # this run interprets verification_scalars only (helpers it calls included)
     ok = len(recs) == 1
     msg = f"expected one recurrence defining s, found {len(recs)}"
     if ok:
@@ -433,14 +433,28 @@ def check_vs(ck, F, rule="R10.3"):
         ok_val = isinstance(got, Sc) and eq(got.e, want)
         ok_pre = isinstance(pre, Vec) and eq(pre.length(), 1) and eq(pre.index(sp.Integer(0)).e, allinv)
         ok_rng = eq(r["n"], n - 1) and eq(sp.expand(i - j), 1)
+        d_ = r.get("doubling")
+        if d_ is not None:
+            # block-doubling spelling: outer round q in [0, lg), inner t in [0, 2^q), position i = 2^q + t.
+            # floor(log2(2^q + t)) = q for 0 <= t < 2^q, so the reference recurrence reads s[i] = s[t] * u_(lg-1-q)^2
+            q = d_["isym"]
+            p2 = sfun("pow2")
+            want_d = S(j) * U(lg - 1 - q) ** 2
+            ok_val = isinstance(got, Sc) and eq(got.e, want_d)
+            pre0 = d_["prefix"]
+            ok_pre = isinstance(pre0, Vec) and eq(pre0.length(), 1) and eq(pre0.index(sp.Integer(0)).e, allinv)
+            ok_rng = eq(d_["n"], lg) and eq(d_["off"], 0) and eq(r["n"], p2(q)) and eq(sp.expand(i - j), p2(q))
+            pre = pre0
         ok = ok_val and ok_pre and ok_rng
         msg = f"s recurrence: s[0]={show(pre)} (want prod u_j^-1), s[i]={got!r} (want s[i-2^lg_i]*u_(lg_n-1-lg_i)^2 with lg_i=31-clz(i)), range n={r['n']}"
         ck.sample({"recurrence": f"s[{i}] = {sp.expand(got.e) if isinstance(got, Sc) else got}", "s[0]": show(pre)})
     ck.require(ok, rule, "s-recurrence", msg, where)
     third = val.items[2] if isinstance(val, Tup) and len(val.items) == 3 else None
-    ck.require(isinstance(third, Vec) and eq(third.length(), n), rule, "s-length", f"third component must be s with n entries, got {show(third) if isinstance(third, Vec) else third!r}", where)
+    guard_n = any(it[0] == "guard" and isinstance(it[1], Cond) and it[1].op == "eq" and it[1].neg and {str(sp.expand(it[1].a)), str(sp.expand(it[1].b))} == {str(n), str(sfun("pow2")(lg))} for it in A["trace"])
+    len_ok = isinstance(third, Vec) and (eq(third.length(), n) or (guard_n and eq(third.length(), sfun("pow2")(lg))))
+    ck.require(len_ok, rule, "s-length", f"third component must be s with n entries, got {show(third) if isinstance(third, Vec) else third!r}", where)
     # guards: lg_n >= 32 ; n != 1<<lg_n ; len(R) != lg_n  (each -> Err(VerificationError))
-    guards = [it for it in A["trace"] if it[0] == "guard" and FX.same_fn(it[4], P_VS)]
+    guards = [it for it in A["trace"] if it[0] == "guard"]
     keys = [g[1].key() for g in guards]
     want_guards = {
         "lg_n<32": lambda c: c.op == "lt" and c.neg and eq(c.a, lg) and eq(c.b, 32),
